@@ -44,6 +44,7 @@ type SimWriter struct {
 	ConnBytes  []byte // what the new owner wrote to the simulated connection
 	ConnClosed int
 	LateWrites int // Write calls after the take-over
+	StrWrites  int // WriteString calls
 }
 
 func NewSimWriter(t *Task) *SimWriter {
@@ -122,6 +123,13 @@ func (w *SimWriter) Write(p []byte) (int, error) {
 	w.Body = append(w.Body, p[:n]...)
 	w.Accepted = append(w.Accepted, n)
 	return n, err
+}
+
+// WriteString: net/http's response writer implements io.StringWriter, and so does this one; code that
+// asserts for it (io.WriteString does) reaches the same write path.
+func (w *SimWriter) WriteString(s string) (int, error) {
+	w.StrWrites++
+	return w.Write([]byte(s))
 }
 
 // Status is what a client would see: the first WriteHeader, or 200 once the exchange is over.
